@@ -131,9 +131,17 @@ def _tags(tags) -> list:
     return sorted(tags)
 
 
+WILD = '\x00<not carried without custom syntax>'
+
+
 def _free_text(s: str, cs: bool) -> str:
-    """A free text field as the chosen export mode can carry it (custom_syntax=False documents '"' -> "''")."""
-    return s if cs else s.replace('"', "''")
+    """A free text field as the chosen export mode can carry it.  custom_syntax=False documents '"' -> "''" and
+    writes backslashes / CR unescaped for a parser that only knows \\n: such a field is not compared (WILD)."""
+    if cs:
+        return s
+    if '\\' in s or '\r' in s:
+        return WILD
+    return s.replace('"', "''")
 
 
 def canon_helper(h) -> list:
@@ -176,7 +184,7 @@ def canon_kv(kv, cs: bool, label: bool, binary: bool = False) -> dict:
     elif t == 'choices':
         vals = []
         for value, name, tags in (kv.val_list or ()):
-            vals.append([_free_text(value, cs), name.replace('\n', ' ').replace('"', "''"), _tags(tags) if cs else []])
+            vals.append([_free_text(value, cs), _free_text(name.replace('\n', ' '), False), _tags(tags) if cs else []])
     out['vals'] = vals
     if binary:
         # documented: no descriptions in the dump; 'reportable' and spawnflag defaults have no slot in the format.
@@ -269,29 +277,39 @@ def canon_ent_bin(ent, deep: bool = False, _seen: tuple = (), implicit_base: boo
 
 
 def first_diff(a, b, path: str = '') -> str:
-    """Human-readable location of the first difference between two JSON-able values."""
+    """Human-readable location of the first difference between two JSON-able values ('' if none).
+    A WILD on the wanted side matches anything."""
+    if isinstance(a, str) and a == WILD:
+        return ''
     if type(a) is not type(b):
         return f'{path}: want {a!r:.300} got {b!r:.300}'
     if isinstance(a, dict):
         for k in sorted(set(a) | set(b)):
             if k not in a or k not in b:
                 return f'{path}.{k}: present on one side only (want {a.get(k)!r:.200} got {b.get(k)!r:.200})'
-            if a[k] != b[k]:
-                return first_diff(a[k], b[k], f'{path}.{k}')
+            d = first_diff(a[k], b[k], f'{path}.{k}')
+            if d:
+                return d
         return ''
     if isinstance(a, list):
         for i, (x, y) in enumerate(zip(a, b)):
-            if x != y:
-                return first_diff(x, y, f'{path}[{i}]')
+            d = first_diff(x, y, f'{path}[{i}]')
+            if d:
+                return d
         if len(a) != len(b):
             return f'{path}: length want {len(a)} got {len(b)}; extra={(a[len(b):] or b[len(a):])!r:.300}'
         return ''
     if a != b:
         if isinstance(a, str) and len(a) > 60:
             i = next((k for k, (x, y) in enumerate(zip(a, b)) if x != y), min(len(a), len(b)))
-            return f'{path}: strings (len {len(a)}/{len(b)}) differ at {i}: want ..{a[max(0, i - 15):i + 15]!r} got ..{b[max(0, i - 15):i + 15]!r}'
+            return (f'{path}: strings (len {len(a)}/{len(b)}) differ at {i}: want ..{a[max(0, i - 15):i + 15]!r} '
+                    f'got ..{b[max(0, i - 15):i + 15]!r}')
         return f'{path}: want {a!r} got {b!r}'
     return ''
+
+
+def has_wild(canon) -> bool:
+    return WILD in json.dumps(canon, ensure_ascii=False)
 
 
 def compare_text_canon(want: dict, got: dict, cs: bool) -> str:
@@ -306,8 +324,8 @@ def compare_text_canon(want: dict, got: dict, cs: bool) -> str:
         if wnames != gnames:
             return f'.{key}: names want {wnames} got {gnames}'
         for e in g:
-            if e not in w:
-                cands = [x for x in w if x[0] == e[0]]
+            cands = [x for x in w if x[0] == e[0]]
+            if not any(first_diff(x, e) == '' for x in cands):
                 return f'.{key}[{e[0]}]: ' + (first_diff(cands[0], e) if cands else 'unexpected')
         if len({e[0] for e in g}) != len(g):
             return f'.{key}: duplicate names after parse'
@@ -398,6 +416,13 @@ def execute_shipped(desc, ctx):
             diff = compare_text_canon(canon_ent_text(ent, cs, label), canon_ent_text(parsed.entities[key], cs, label), cs)
             ctx.check(not diff, 'canon', f'{ent.classname} (cs={cs}, label={label}): {diff}', cls=ent.classname)
         text2 = parsed.export(label_spawnflags=label, custom_syntax=cs)
+        if not cs:
+            # the database holds backslashes (logic_console), which this mode cannot carry: stability after one round
+            ctx.label('lossy_fixed_point')
+            parsed2 = reparse(ctx, text2, 'whole shipped database, second export', whole=True)
+            if parsed2 is None:
+                return
+            text, text2 = text2, parsed2.export(label_spawnflags=label, custom_syntax=cs)
         ctx.check(text2 == text, 'fixed_point',
                   'export(parse(export(db))) != export(db): ' + first_diff(text, text2), whole=True)
         return
@@ -415,9 +440,16 @@ def execute_shipped(desc, ctx):
     got = parsed.entities.get(ent.classname.casefold())
     if got is None:
         return
-    diff = compare_text_canon(canon_ent_text(ent, cs, label), canon_ent_text(got, cs, label), cs)
+    want = canon_ent_text(ent, cs, label)
+    diff = compare_text_canon(want, canon_ent_text(got, cs, label), cs)
     ctx.check(not diff, 'canon', f'{ent.classname} (cs={cs}, label={label}): {diff}\n{text[:1500]}', cls=ent.classname)
     text2 = export_ent(got, cs, label)
+    if has_wild(want):
+        ctx.label('lossy_fixed_point')
+        parsed2 = reparse(ctx, text2, f'entity {ent.classname}, second export', eval_bases=False, cls=ent.classname)
+        if parsed2 is None:
+            return
+        text, text2 = text2, export_ent(parsed2.entities[ent.classname.casefold()], cs, label)
     ctx.check(text2 == text, 'fixed_point', f'{ent.classname}: second export differs: {first_diff(text, text2)}',
               cls=ent.classname)
 
